@@ -886,6 +886,10 @@ theorem tr_handleChallenge (c : Cfg) (src : Addr) (nonce cd enrSeq : Nat) :
     · rw [← hsrc']
       refine Tr.bind (tr_removeExpected _ 0) (fun _ => ?_)
       refine Tr.bind ((tr_failRequest ..).pre (fun _ h => h.good)) (fun _ => Tr.ret _ (fun _ h => h))
+    refine Tr.ite (fun _ => ?_) (fun _ => ?_)
+    · rw [← hsrc']
+      refine Tr.bind (tr_removeExpected _ 0) (fun _ => ?_)
+      refine Tr.bind ((tr_failRequest ..).pre (fun _ h => h.good)) (fun _ => Tr.ret _ (fun _ h => h))
     refine Tr.bind ((frame_freshEph c).bal _ _) (fun eph => ?_)
     refine Tr.bind ((frame_freshNonce c).bal _ _) (fun hsNonce => ?_)
     cases call0.contact.record with
